@@ -48,7 +48,7 @@ def run(ctx):
     t = ctx.tier
     gpath, g, r = vf.tlc_graph(ctx, 'H2Conn', 'MC_C13_%s.cfg' % t, 'c13graph', timeout=1800)
     rng = random.Random(ctx.seed)
-    sample = 0.02 if t == 'quick' else 0.04
+    sample = 0.008 if t == 'quick' else 0.04
     # only edges taken from a live connection are informative (after a connection error everything is discarded)
     live = lambda e: g['nodes'][e[0]]['ga'] != 'error'
     epaths, total = vf.edge_cover_paths(g, rng, want_edge=live, sample=sample, max_len=9)
@@ -64,7 +64,8 @@ def run(ctx):
             if src['hdr'] != 0 and (e[2] == 'HandlerFinish' or (e[3][0] == 'WU' and e[3][4] == 'zero')):
                 unobservable[0] += 1
                 break
-            st = {'expect': dst['out'], 'dead': src['ga'] == 'error'}
+            # in graceful state a connection error writes no second GOAWAY: the connection just ends (shutdown timer)
+            st = {'expect': dst['out'], 'dead': src['ga'] == 'error', 'silent': src['ga'] == 'graceful' and dst['ga'] == 'error'}
             if e[2] == 'ClientFrame':
                 st['f'] = e[3]
                 sid = e[3][1]
@@ -92,6 +93,13 @@ def run(ctx):
         for st, so in zip(p['steps'], o['steps']):
             what = st.get('f') or ['HandlerFinish', st.get('finish')]
             trail.append(what)
+            if st.get('silent'):
+                # nothing but the end of the connection may follow
+                if [x for x in (so.get('got') or []) if x[0] in ('START', 'RESP', 'PONG', 'ACK')]:
+                    ctx.violation({'check': 'C13', 'kind': 'served_after_connection_error', 'frame': what[0]},
+                                  'frames %s: connection error after the graceful GOAWAY, yet the server went on: %s' % (trail, so.get('got')), {'path': trail, 'observed': so})
+                nsteps += 1
+                break
             if so.get('err') and not any(x[0] == 'C' for x in st['expect']):
                 # the connection died although the specification expects it to live
                 ctx.violation({'check': 'C13', 'kind': 'connection_lost', 'frame': what[0]},
@@ -119,7 +127,7 @@ def run(ctx):
            'steps_compared': nsteps, 'graph_edges_total': len(g['edges']), 'live_edges_sampled': total, 'edge_sample_fraction': sample,
            'reactions_accepted_by_rfc_latitude_only': diverge, 'paths_cut_at_unobservable_step_inside_open_header_block': unobservable[0],
            'rule': 'paths from the initial state covering a seeded sample of the live edges of the TLC graph (frame alphabet: SETTINGS ok/ack/bad, HEADERS/CONTINUATION with '
-                   'END_STREAM/END_HEADERS variants, malformed block, self-dependency, DATA, RST_STREAM, WINDOW_UPDATE ok/zero/overflow, PRIORITY ok/self, PUSH_PROMISE, unknown; '
+                   'END_STREAM/END_HEADERS variants, malformed block, self-dependency, DATA, RST_STREAM, WINDOW_UPDATE ok/zero/overflow, PRIORITY ok/self, PUSH_PROMISE, PING ok/ack/wrong size/on a stream, GOAWAY from the client (graceful state: newer streams discarded, no second GOAWAY on a later connection error), unknown; '
                    'streams 0,1,2,3,5; handler completion as an environment action)'}
     return ctx.finish(cov, assumptions=['the RFC-permitted set is derived from the tabulated reaction plus the two latitude rules (not an independent transcription of RFC 9113)',
                                         'the scripted client waits for a PING acknowledgement after every frame: reset-in-flight states are not reached',
